@@ -154,6 +154,7 @@ structure Facts where
   randomPrefix : Name          -- createRandomFileName: p + uuid + s
   randomSuffix : Name
   cdpSchemePrefix : Name       -- strings.HasPrefix(strings.ToLower(cdp), …)
+  fileIdPrefix : Name          -- FileLoader.GetCRLLocationIdentifier hashes this literal followed by the file name
   updateOps : List UpdOp
   metaWriteHits : List String  -- hook hits after the Put of StartUpdateCrl
   entryWriteHits : List String -- … of InsertRevokedCert
@@ -178,8 +179,9 @@ variable (sha : List UInt8 → List UInt8) (norm : Name → Option Name)
 /-- `URLLoader.GetCRLLocationIdentifier` -/
 def urlId (u : Name) : Option Name := (norm u).map (storeName sha)
 
-/-- `FileLoader.GetCRLLocationIdentifier` -/
-def fileId (f : Name) : Name := storeName sha f
+/-- `FileLoader.GetCRLLocationIdentifier`: the pre-image is a literal (it starts with a control byte, which no
+normalised URL and no hex string contains) followed by the file name. -/
+def fileId (F : Facts) (f : Name) : Name := storeName sha (F.fileIdPrefix ++ f)
 
 /-- The distribution points `CreatePreferredCrlLoader` keeps. -/
 def cdpKept (F : Facts) (cdps : List Name) : List Name := cdps.filter (hasLowerPrefix F.cdpSchemePrefix)
